@@ -139,7 +139,7 @@ def jobs(tier, seed):
             out.append({'name': 'jma %d records offset %s' % (n, off), 'fmt': 'jma', 'n': n, 'opts': {'offset': off}, 'cost': 2 ** n})
         if n == 1 or tier == 'thorough' and n == 2:
             # split on the roll-over pattern of the first record (second >= 60, minute >= 60, hour >= 24): parallelism only
-            for pat in [(a, b, c) for a in (0, 1) for b in (0, 1) for c in (0, 1)]:
+            for pat in ([(a, b, c) for a in (0, 1) for b in (0, 1) for c in (0, 1)] if n == 1 else [(0, 0, 0), (1, 0, 0), (0, 1, 0), (0, 0, 1)]):
                 out.append({'name': 'horus %d records, roll-over pattern %d%d%d' % ((n,) + pat), 'fmt': 'horus', 'n': n, 'opts': {'pattern': list(pat)},
                             'cost': 30 ** n})
         if n == 2 and tier == 'quick':
